@@ -47,6 +47,8 @@ type Gen struct {
 	tracedArgTypes map[string][]types.Type
 	tracedResTypes map[string][]types.Type
 	tracedPkg      map[string]string
+	traceSpecMemo  map[*SpecFun]int
+	tracedFnType   map[string]types.Type
 	modDirty    bool
 	funcSet     map[*ssa.Function]bool
 	ctCache     map[*ssa.Function]ctEntry
@@ -312,6 +314,9 @@ func (g *Gen) calleeResType(name string, i int) types.Type {
 
 // calleeArgType: type of the j-th argument (receiver first) of the traced callee.
 func (g *Gen) calleeArgType(name string, j int) types.Type {
+	if j == -1 {
+		return g.tracedFnType[name]
+	}
 	t, ok := g.tracedArgTypes[name]
 	if !ok || j >= len(t) {
 		return nil
@@ -341,7 +346,7 @@ func (g *Gen) newFuncGen(fn *ssa.Function, ct *Contract, props []string) *FuncGe
 	fg := &FuncGen{g: g, enc: newEnc(bv), fn: fn, ct: ct, vals: map[ssa.Value]Val{}, comps: map[string]*Comp{},
 		ghostSort: map[string]string{}, ghostInits: map[string]string{}, paramVals: map[string]Val{}, ordinals: map[string]int{},
 		noteSeen: map[string]bool{}, iterCells: map[*ssa.Range]string{}, callCount: map[string]int{}, nilChecked: map[string]bool{},
-		constLen: map[string]int{}, blockOrder: map[*ssa.BasicBlock]int{}, invAssumed: map[string]bool{}, invTouched: map[string]touched{}, dirty: map[string]bool{}, lastAssert: map[string]int{}, known: map[string]touched{}, depsCache: map[string][]string{}, ownMods: map[string][]string{}}
+		constLen: map[string]int{}, blockOrder: map[*ssa.BasicBlock]int{}, invAssumed: map[string]bool{}, invTouched: map[string]touched{}, dirty: map[string]bool{}, lastAssert: map[string]int{}, known: map[string]touched{}, depsCache: map[string][]string{}, ownMods: map[string][]string{}, closures: map[ssa.Value]*ssa.MakeClosure{}}
 	fg.props = props
 	return fg
 }
@@ -441,6 +446,9 @@ func main() {
 	for _, j := range jobs {
 		if *dump {
 			j.fn.WriteTo(os.Stdout)
+			for _, af := range j.fn.AnonFuncs {
+				af.WriteTo(os.Stdout)
+			}
 		}
 		defProps := j.props
 		if j.ct != nil && len(j.ct.Props) > 0 {
@@ -595,7 +603,7 @@ func load(repo string) (*Gen, error) {
 	g := &Gen{fset: pkgs[0].Fset, pkgs: pkgs, byPath: map[string]*packages.Package{}, allTypes: map[string]*types.Package{},
 		filesByName: map[string]*ast.File{}, funcIDs: map[string]int{}, typeByKey: map[string]types.Type{},
 		modCache: map[*ssa.Function]*ModSet{}, modBusy: map[*ssa.Function]bool{}, traced: map[string]bool{}, loopCache: map[*ssa.Function][]loopStmt{},
-		tracedArgTypes: map[string][]types.Type{}, tracedResTypes: map[string][]types.Type{}, tracedPkg: map[string]string{}, ctCache: map[*ssa.Function]ctEntry{}}
+		tracedArgTypes: map[string][]types.Type{}, tracedResTypes: map[string][]types.Type{}, tracedPkg: map[string]string{}, tracedFnType: map[string]types.Type{}, ctCache: map[*ssa.Function]ctEntry{}}
 	g.sizes = types.SizesFor("gc", "amd64")
 	var nerr int
 	packages.Visit(pkgs, nil, func(p *packages.Package) {
@@ -674,7 +682,7 @@ func (g *Gen) findTraced() {
 	walk = func(e SExpr) {
 		switch x := e.(type) {
 		case *SCall:
-			if (x.Fun == "ncalls" || x.Fun == "callarg" || x.Fun == "callseq" || x.Fun == "callres") && len(x.Args) > 0 {
+			if (x.Fun == "ncalls" || x.Fun == "callarg" || x.Fun == "callseq" || x.Fun == "callres" || x.Fun == "callobs" || x.Fun == "callfn") && len(x.Args) > 0 {
 				g.traced[calleeKeyOf(x.Args[0])] = true
 			}
 			for _, a := range x.Args {
@@ -747,6 +755,39 @@ func (g *Gen) findTraced() {
 		g.tracedResTypes[name] = rs
 	}
 	g.externTraceTypes()
+	// named function types of the module ("FuncCheck"): argument 0 is the function value itself
+	for _, name := range sortedKeys(g.traced) {
+		if _, ok := g.tracedArgTypes[name]; ok || strings.ContainsAny(name, ".()") {
+			continue
+		}
+		for _, path := range sortedKeys(g.allTypes) {
+			p := g.allTypes[path]
+			if !g.inModule(p.Path()) {
+				continue
+			}
+			tn, ok := p.Scope().Lookup(name).(*types.TypeName)
+			if !ok {
+				continue
+			}
+			sig, ok := tn.Type().Underlying().(*types.Signature)
+			if !ok {
+				continue
+			}
+			if _, have := g.tracedArgTypes[name]; have && !strings.HasSuffix(p.Path(), "/runtime") {
+				continue
+			}
+			var ts, rs []types.Type
+			g.tracedFnType[name] = tn.Type()
+			for k := 0; k < sig.Params().Len(); k++ {
+				ts = append(ts, sig.Params().At(k).Type())
+			}
+			for k := 0; k < sig.Results().Len(); k++ {
+				rs = append(rs, sig.Results().At(k).Type())
+			}
+			g.tracedArgTypes[name] = ts
+			g.tracedResTypes[name] = rs
+		}
+	}
 	for _, name := range sortedKeys(g.traced) {
 		if _, ok := g.tracedArgTypes[name]; !ok {
 			g.bindErrors = append(g.bindErrors, "call trace refers to unknown function "+name)
@@ -860,4 +901,89 @@ func sweepMatch(sw *Sweep, name string) bool {
 		}
 	}
 	return hit
+}
+
+// observeOf finds the `observe` declaration `obs` in the contract of the traced callee `name`
+// (bare function/method key); the v1 runtime package is preferred when names collide.
+func (g *Gen) observeOf(name, obs string) (*Observe, *types.Package) {
+	var best *Observe
+	var bestPkg *types.Package
+	for _, k := range sortedKeys(g.cs.ByKey) {
+		ct := g.cs.ByKey[k]
+		f := strings.Fields(k)
+		if len(f) < 3 || f[0] != "func" || strings.Join(f[2:], " ") != name {
+			continue
+		}
+		for _, ob := range ct.Observes {
+			if ob.Name == obs && (best == nil || strings.HasSuffix(ct.Pkg, "/runtime")) {
+				best, bestPkg = ob, g.pkgByPath(ob.Pkg)
+			}
+		}
+	}
+	return best, bestPkg
+}
+
+// mentionsTrace: does the specification expression speak about the call trace of the function
+// body it is attached to (ncalls/callarg/callres/callseq/callobs, directly or through spec
+// functions)?  Such clauses are facts about the callee's own execution: they are proved
+// against its body and are never assumed at a call site (the caller's trace is a different one).
+func (g *Gen) mentionsTrace(e SExpr) bool {
+	if g.traceSpecMemo == nil {
+		g.traceSpecMemo = map[*SpecFun]int{}
+	}
+	var walk func(e SExpr) bool
+	walk = func(e SExpr) bool {
+		switch x := e.(type) {
+		case *SCall:
+			switch x.Fun {
+			case "ncalls", "callarg", "callres", "callseq", "callobs", "callfn":
+				return true
+			}
+			bare := x.Fun
+			if i := strings.LastIndex(bare, "."); i >= 0 {
+				bare = bare[i+1:]
+			}
+			for _, k := range sortedKeys(g.cs.Specs) {
+				if !strings.HasSuffix(k, "."+bare) {
+					continue
+				}
+				sf := g.cs.Specs[k]
+				switch g.traceSpecMemo[sf] {
+				case 1:
+					return true
+				case 2, 3:
+					continue
+				}
+				g.traceSpecMemo[sf] = 3 // in progress
+				if sf.Body != nil && walk(sf.Body) {
+					g.traceSpecMemo[sf] = 1
+					return true
+				}
+				g.traceSpecMemo[sf] = 2
+			}
+			for _, a := range x.Args {
+				if walk(a) {
+					return true
+				}
+			}
+		case *SBin:
+			return walk(x.L) || walk(x.R)
+		case *SUn:
+			return walk(x.X)
+		case *SQuant:
+			return walk(x.Body)
+		case *SCond:
+			return walk(x.C) || walk(x.A) || walk(x.B)
+		case *SSel:
+			return walk(x.X)
+		case *SIndex:
+			return walk(x.X) || walk(x.I)
+		case *SSlice:
+			return walk(x.X) || (x.Lo != nil && walk(x.Lo)) || (x.Hi != nil && walk(x.Hi))
+		case *SAssert:
+			return walk(x.X)
+		}
+		return false
+	}
+	return walk(e)
 }
